@@ -2,7 +2,7 @@
  * (values >= n included), optional 32-byte extra data, optional 16-byte algo tag and every counter.
  * The DRBG object functions are replaced by ghost-logging contracts; scalar_set_b32/get_b32 and the buffer
  * assembly are the real code.  The generate loop is closed by the loop contract of
- * hooks/C01_sign_inner_loop.diff (partial correctness).
+ * the unit table (engine/units/C01_more.py, no /repo edit) (partial correctness).
  * Decided: key material = key32 || be32(be256(msg32) mod n) || [data32] || [algo16], length 64/80/96/112;
  * initialize once, before any output; exactly counter+1 generate calls, each (same DRBG, nonce32, 32);
  * finalize once, afterwards; returns 1. */
